@@ -107,7 +107,7 @@ def configs(tier):
     out = []
     for n in b["bd_tips"]:
         for rates in ((1.0, 0.0), (1.0, 0.5)):
-            for ns in ("none", "exact", "larger", "short_T", "short_other"):
+            for ns in ("none", "exact", "larger", "short_T", "short_lower", "short_other"):
                 out.append(("birth_death_tree", n, rates, ns))
                 out.append(("fast_birth_death_tree", n, rates, ns))
         out.append(("uniform_pure_birth_tree", n, (1.0, 0.0), "exact"))
@@ -147,6 +147,10 @@ def make_ns(kind, n):
         # fewer taxa than tips, labelled like the simulator's own generated labels (T1, T2, ...):
         # the missing taxa must be created without re-using a label that is already there
         return dendropy.TaxonNamespace(["T%d" % i for i in range(1, max(2, n))])
+    if kind == "short_lower":
+        # the same with labels that equal the generated ones only up to letter case (the default
+        # namespace matches labels case-insensitively)
+        return dendropy.TaxonNamespace(["t%d" % i for i in range(1, max(2, n))])
     if kind == "short_other":
         return dendropy.TaxonNamespace(["t0"])
     k = n if kind == "exact" else n + 1
